@@ -133,7 +133,15 @@ func programOf(name string) (base, main *progen.Spec) {
 	case "big-reduce":
 		// every key once per shard: the shuffle carries thousands of rows per partition (several reads of a
 		// merge buffer, tens of kilobytes per stream)
-		main = chain(source(2, 3000, 100000), progen.Node{Op: "reduce", Fn: &progen.Fn{}})
+		// the producers hold disjoint key ranges, so that for the second half of every merge one stream is
+		// the only one left
+		src := source(2, 3000, 100000)
+		for sh := range src.ShardRows {
+			for i := range src.ShardRows[sh] {
+				src.ShardRows[sh][i][0] = sh*1000000 + i
+			}
+		}
+		main = chain(src, progen.Node{Op: "reduce", Fn: &progen.Fn{}})
 	case "reused-result":
 		base = chain(source(3, 60, 7), progen.Node{Op: "reduce", Fn: &progen.Fn{}})
 		main = mk(progen.Node{Op: "arg", Arg: 0}, progen.Node{Op: "map", In: []int{0}, Fn: &progen.Fn{Exprs: []progen.Expr{{K: "hash", T: progen.TInt, M: 3}, {K: "col", I: 1}}}}, progen.Node{Op: "reduce", In: []int{1}, Fn: &progen.Fn{}})
